@@ -259,16 +259,46 @@ def rule_fl1(ctx: Ctx) -> RuleResult:
     # MemoryStore.iterate_map / add_map keep insertion order: a dict iterated directly
     m, fn = ctx.function("rxsci/state/memory_store.py", "MemoryStore.iterate_map")
     r.instances += 1
-    fors = [n for n in ast.walk(fn) if isinstance(n, ast.For)]
-    ok = len(fors) == 1 and isinstance(fors[0].iter, ast.Subscript) and ast.unparse(fors[0].iter.value) == "self.values" \
-        and any(isinstance(n, ast.Yield) and isinstance(n.value, ast.Name) and isinstance(fors[0].target, ast.Name)
-                and n.value.id == fors[0].target.id for n in ast.walk(fors[0]))
-    r.ob(ok, lambda: Finding("FL-1", "MemoryStore.iterate_map{order}", m.where(fn),
-                             "iterate_map must yield the keys of the parent's dict in its own (insertion) order"))
+    SELF, KEY = ("arg", "self"), ("arg", "key")
+
+    def parent_dict(t):
+        """self.values[key[0]] (optionally through .keys() / iter())"""
+        if t is None:
+            return False
+        if t[0] == "mcall" and t[2] == "keys" and not t[3]:
+            t = t[1]
+        if t[0] == "call" and t[1] == ("builtin", "iter") and len(t[2]) == 1:
+            t = t[2][0]
+        return t[0] == "sub" and t[1] == ("attr", SELF, "values") and t[2][0] == "sub" and t[2][1] == KEY and t[2][2] == ("const", 0)
+    ok = True
+    seen = False
+    for p in ctx.fn_paths(m, fn, max_iter=1):
+        ys = [e for e in p.trace if e.k == "yield"]
+        loops = [e for e in p.trace if e.k == "loopiter"]
+        for y in ys:
+            seen = True
+            if y.frm:
+                ok = ok and parent_dict(y.value)
+            else:
+                # the loop variable of a loop over the parent's dict
+                lp = [e for e in loops if e.var == y.value]
+                ok = ok and len(lp) == 1 and parent_dict(lp[0].iter)
+        if p.outcome == "return" and p.value is not None and p.value != ("const", None):
+            seen = True
+            ok = ok and parent_dict(p.value)
+    r.ob(ok and seen, lambda: Finding("FL-1", "MemoryStore.iterate_map{order}", m.where(fn),
+                                      "iterate_map must yield the keys of the parent's dict in its own (insertion) order"))
     m2, fn2 = ctx.function("rxsci/state/memory_store.py", "MemoryStore.add_key")
-    txt = ast.unparse(fn2)
-    r.ob("self.set(key, {})" in txt, lambda: Finding("FL-1", "MemoryStore.add_key{mapper-dict}", m2.where(fn2),
-                                                     "a mapper state must start each parent lifetime with an empty dict (insertion ordered)"))
+    fresh = False
+    for p in ctx.fn_paths(m2, fn2, max_iter=1):
+        dec = [e for e in p.trace if e.k == "decision" and any(x == ("attr", SELF, "is_mapper") for x in subterms(e.test))]
+        if dec and dec[0].outcome and dec[0].test == ("attr", SELF, "is_mapper"):
+            ws = [e for e in p.trace if e.k == "substore" and e.base == ("attr", SELF, "values")]
+            fresh = len(ws) == 1 and ws[0].value == ("dict",)
+            if not fresh:
+                break
+    r.ob(fresh, lambda: Finding("FL-1", "MemoryStore.add_key{mapper-dict}", m2.where(fn2),
+                                "a mapper state must start each parent lifetime with an empty dict (insertion ordered)"))
     r.require_instances(2)
     return r
 
